@@ -35,7 +35,7 @@ PROPS = {
                    "the interleaving of atomic inc/dec steps; getters of the real crate are compared with the model after every call.",
         level_note=COMMON_NOTE + "Each portable_atomic fetch_add/fetch_sub/store is assumed to be one atomic step."),
     "C11": dict(
-        streams=[dict(cmd="C11", oracle_only=True)],
+        streams=[dict(cmd="C11", oracle_only=True), dict(cmd="C11T", oracle_only=True)],
         gen=[("tools/gen_keys.py", "lean/IndicatifModel/Generated/Keys.lean")],
         technique="Lean 4 theorems over key tables regenerated from src/lib.rs and src/style.rs on every run + oracle comparison of rendered keys with public formatters/getters",
         level_text="The documented and implemented placeholder tables are re-extracted from the sources on every run and the coverage theorems re-checked by the kernel; "
